@@ -44,7 +44,8 @@ def executed_lines():
 @st.composite
 def _program(draw):
     nobj = draw(st.integers(1, 2))
-    objs = [{'reentrant': draw(st.booleans()), 'timeout': draw(st.sampled_from([-1, -1, 0.1]))} for _ in range(nobj)]
+    objs = [{'reentrant': draw(st.booleans()), 'timeout': draw(st.sampled_from([-1, -1, 0.1])),
+             'path': draw(st.sampled_from(['str', 'str', 'pathlib', 'direntry']))} for _ in range(nobj)]
     threads = []
     for _ in range(draw(st.integers(2, 4))):
         rounds = []
@@ -67,7 +68,8 @@ def valid(case):
         if not (1 <= len(case['objs']) <= 2) or not case['threads'] or not schedule_valid(case['sched']):
             return False
         for o in case['objs']:
-            if o['timeout'] not in (-1, 0.1) or not isinstance(o['reentrant'], bool):
+            if o['timeout'] not in (-1, 0.1) or not isinstance(o['reentrant'], bool) or \
+                    o.get('path', 'str') not in ('str', 'pathlib', 'direntry'):
                 return False
         for t in case['threads']:
             for r in t:
